@@ -47,7 +47,7 @@ func corpusShapesLex(c *Check, entry string, every, lex int, onlyOK bool, fuel i
 	c.ExploreNeeds(longShapes(entry, fuel), nil)
 	c.Bounds = append(c.Bounds, corpusBound(every, rich), longBound)
 	if lex > 0 {
-		c.Bounds = append(c.Bounds, bound("S5: in every %d-th name, variable, integer, string body and inline-HTML token of these programs one byte is replaced by a symbolic byte of the same lexical class (first/later byte of a name incl. bytes >= 0x80; digit; any string-body byte that starts nothing special incl. line terminators; any HTML byte except '<')", lex))
+		c.Bounds = append(c.Bounds, bound("S5: in every %d-th name, variable, integer, string body and inline-HTML token of these programs one byte is replaced by a symbolic byte of the same lexical class (first/later byte of a name incl. bytes >= 0x80; digit; any string-body byte that starts nothing special incl. line terminators; any HTML byte except '<'), and a backslash followed by an arbitrary byte is inserted at the start of quoted string bodies", lex))
 	}
 	return nil
 }
